@@ -249,3 +249,14 @@ extend("C08", "Engine V proves, for curves with ANY number of control points, th
               "return a NEW curve on a new knot-vector object with control points -P_i, s + P_i, ... , P_i / s element-wise (ZeroDivisionError exactly for s == 0), the same "
               "weights, and leave the operand unchanged; that such control points give the pointwise result is the partition of unity, decided per shape by engine S.")
 ENGINE_V += ["C08"]
+CONF = ("Modularity is checked, not assumed: every call-site contract a caller of %s is verified against is discharged against the contract PROVED for the callee "
+        "(pyvc/conform.py: the handler raises the callee's preconditions, lets every exception of the callee's contract happen and assumes about the post-state only what "
+        "the callee's ensures imply), and the callee contracts are verified in the same check (transitive closure).")
+for _pid, _what in (("C04", "knot_insert / apply"), ("C05", "knot_remove / update"), ("C06", "degree_increase / degree_decrease / the degree setter"),
+                    ("C12", "fit_points"), ("C14", "clean / knot_clean / degree_clean"), ("C15", "every public mutator of Curve")):
+    extend(_pid, CONF % _what)
+extend("C15", "The public BaseCurve.apply has NO precondition: engine V proves that a matrix of the wrong shape gives ValueError with the curve unchanged (D34 was hidden by such a precondition).")
+extend("C08", "Bounded, concrete: a vector-valued curve times / divided by a scalar-valued curve in both operand orders, polynomial and rational (D32).")
+extend("C09", "Bounded, concrete: curves with 3-D (numpy) control points, polynomial and rational, in every coordinate.")
+extend("C11", "Bounded, concrete: vector-valued points WITH interpolation nodes - the returned error is the worst coordinate's squared-residual integral (D33).")
+extend("C07", "The empty cut set and the ends-only cut set (split([]) is the curve itself) are cut classes of their own.")
